@@ -22,7 +22,7 @@ import (
 func TestMain(m *testing.M) {
 	ev.SetMeta(ev.Meta{
 		Property: "C08", Level: "exploration",
-		Rule: "(a) owned schedules: rapid draws a small committed context (a chain of 1..4 committed blocks, optionally a descendant of X committed before X, tombstones), one block X whose commit writes one key, and 1..2 concurrent lookups (at an ancestor, at X, at the pre-committed descendant, through an uncommitted child BlockCache of X or a QueryBlockCache; optionally two lookups in sequence). Every participant parks at each yield point of the verif hook (before every shared-map read/write of StateCache.Get and StateCache.commit); a cooperative scheduler releases exactly one at a time, so an execution is a pure function of (scenario, schedule). All interleavings are ENUMERATED by depth-first search up to a cap (quick 3000, thorough 30000 per scenario); above the cap additional rapid-drawn schedules are run. " +
+		Rule: "(a) owned schedules: rapid draws a small committed context (a chain of 1..4 committed blocks, optionally a descendant of X committed before X, tombstones), one block X whose commit writes one key, and 1..2 concurrent lookups (at an ancestor, at X, at the pre-committed descendant, through an uncommitted child BlockCache of X or a QueryBlockCache; optionally two lookups in sequence). Every participant parks at each yield point of the verif hook (before every shared-map read/write of StateCache.Get and StateCache.commit); a cooperative scheduler releases exactly one at a time, so an execution is a pure function of (scenario, schedule). All interleavings are ENUMERATED by depth-first search up to a cap (quick 3000, thorough 12000 per scenario); above the cap additional rapid-drawn schedules are run. " +
 			"Oracle: every hit equals the truth of the declared tree; a lookup that starts after Commit() returned, at X or a descendant with a committed chain, for the key X wrote, must hit X's value; the same lookups repeated after all participants finished must satisfy both. " +
 			"(b) free-running executions under the race detector: 2..4 committer goroutines (one per chain, parents first) and 2..4 reader goroutines over a generated forked tree with drawn Gosched perturbation; every hit is judged against the declared truth, any race report fails the run, and all lookups are repeated after the join with must-hit expectations. " +
 			"One evaluation = one executed schedule (a) or one free-running case (b). Non-trivial (a) = a schedule in which a reader step falls strictly between the committer's first value write and its link publication; (b) = committers and readers overlapped (measured by a shared phase counter). distinct = distinct (scenario, schedule).",
@@ -418,8 +418,8 @@ func TestOwnedSchedules(t *testing.T) {
 		}
 		return
 	}
-	ev.Rapid(t, 150, 1200)
-	capN := ev.N(3000, 30000)
+	ev.Rapid(t, 150, 250)
+	capN := ev.N(3000, 12000)
 	rapid.Check(t, func(rt *rapid.T) {
 		sc := genScenario(rt)
 		var extra [][]int
